@@ -259,6 +259,10 @@ def prepare_chain(cases, tier, seed):
 
 def with_chain(script):
     def wrapped(case, naming, tier, seed):
+        if 'groups' in case:
+            if naming.k != 0:
+                return [], None
+            return [observe.exec_wide(case['groups'])], {'key': case['groups'], 'nontrivial': True, 'tags': ['wideleaves']}
         if 'chain' in case:
             return [observe.exec_chain(case['chain'])], {'key': case['chain'], 'nontrivial': True}
         return script(case, naming, tier, seed)
@@ -267,7 +271,7 @@ def with_chain(script):
 
 SEM_ASSUME = ['Boolean models; constraints purely propositional over feature names',
               'exact counts are brute force over all 2^n selections, n <= family bound']
-prop('C13', ['Tree', 'TreeStar', 'TreeCtc', 'Big', 'Wide', 'Chain', 'Ctc3', 'Req2', 'DecorAbs', 'Edit1', 'EditWalk'], naming_matters=True,
+prop('C13', ['Tree', 'TreeStar', 'TreeCtc', 'Big', 'Wide', 'Chain', 'Ctc3', 'Req2', 'DecorAbs', 'Edit1', 'EditWalk', 'WideLeaves'], naming_matters=True,
      name_classes=('casepair', 'natural'), name_stride={'quick': 8, 'thorough': 3}, assumptions=SEM_ASSUME,
      prepare=prepare_chain)(with_chain(ops_script(['estimate'])))
 prop('C14', ['Tree', 'TreeStar', 'TreeCtc', 'Big', 'Wide', 'Chain', 'Ctc3', 'Req2', 'DecorAbs', 'Edit1', 'EditWalk'], naming_matters=True,
